@@ -17,12 +17,20 @@ CFG = {
         "Leptos.Hydrate.C05_walk_commutes_with_writes",
         "Leptos.Hydrate.C05_initial_dom_like_csr",
         "Leptos.Hydrate.C05_initial_dom_like_csr_partial",
+        # hydrated-then-rebuilt = client-built-then-rebuilt, comments aside (all pairs of one view type over the structural grammar,
+        # static string attributes, no child-less non-void element in A)
+        "Leptos.Hydrate.C05_then_like_csr",
         # regression witnesses of the repaired defects F-C05-1 / F-C05-3 (kernel-evaluated: old code fails, current code passes)
         "Leptos.Hydrate.C05_empty_text_witness",
         "Leptos.Hydrate.C05_empty_text_witness_mid",
         "Leptos.Hydrate.C05_then_like_csr_old_false",
         "Leptos.Hydrate.C05_initial_dom_old_witness",
         "Leptos.Hydrate.C05_fragment_parent_witness",
+        "Leptos.Hydrate.C05_keyed_position_witness",
+        "Leptos.Hydrate.C05_result_err_position_witness",
+        # InertElement: its hydrate moves cursor and position like the element it was rendered from
+        "Leptos.Hydrate.C05_inert_walk",
+        "Leptos.Hydrate.C05_inert_walk_error",
         # F-C05-2 (outside the grammar of the theorems): raw-text elements keep no child state
         "Leptos.Hydrate.C05_raw_text_child_witness",
         # the lemmas the view theorems rest on
@@ -40,6 +48,20 @@ CFG = {
         "Leptos.Hydrate.loadL_spec",
         "Leptos.Hydrate.setAttrs_spec",
         "Leptos.Hydrate.nodupAttrs_dom",
+        "Leptos.Hydrate.hydrated_side",
+        "Leptos.Hydrate.csr_side",
+        "Leptos.Hydrate.erase_rebuild",
+        "Leptos.Hydrate.erase_build",
+        "Leptos.Hydrate.erase_replaceState",
+        "Leptos.Hydrate.erase_mount",
+        "Leptos.Hydrate.erase_insertNode",
+        "Leptos.Hydrate.hyd_rep",
+        "Leptos.Hydrate.hyd_shape",
+        "Leptos.Hydrate.settle_get",
+        "Leptos.Hydrate.serList_erase",
+        "Leptos.Hydrate.depth_le_owned",
+        "Leptos.Hydrate.nodup_bounded",
+        "Leptos.Hydrate.loadRoot_facts",
         "Leptos.Hydrate.initial_view",
         "Leptos.Hydrate.initialA_view",
         "Leptos.Hydrate.hydrate_congr",
@@ -57,7 +79,12 @@ CFG = {
             "Option none<->some between strings and in an element; Either switch, same branch, unit branch; Vec empty / of elements / of strings "
             "followed by a sibling, grow, shrink, clear, fill, Vec after a string, Vec of Vec, Vec of Option; nested tuples (fragments); `()` "
             "alone and between strings; void elements; a child-less container; an element whose children follow a dynamic node; String / bool / "
-            "Option<String> attributes; a <style> with an unchanged string child; an AnyView whose type changes on rebuild); then n seeded random cases: A = 1..3 sibling views of depth 1..4 "
+            "Option<String> attributes; a <style> with an unchanged string child; an AnyView whose type changes on rebuild; "
+            "InertElement first / middle / last / only child, at top level, nested, followed by an element of the shape of its first "
+            "descendant; keyed lists (element items; string items; empty between strings; first child); Result Err between strings and Ok -> Err; "
+            "u32 / Arc<str> / Cow<str>; EitherOf3 switch; array; OwnedView; closure (also as first child)); then n seeded random cases: A = 1..3 sibling views of depth 1..4 (1 node in 5 one of the "
+            "other RenderHtml implementors: InertElement over a random static subtree, keyed list with element or string items, Result, u32, Arc<str>, "
+            "Cow<str>, EitherOf3, array, OwnedView, closure) "
             "over 16 container tags (incl. a custom element) + 4 void tags in a nesting the HTML tree builder accepts, strings from 20 atoms "
             "(markup characters, entity-like text, `<!>`, `-->`, non-ASCII, white space) with the empty string at 1/6, attribute kinds fixed per tag (with RAW_TEXT_CASES = true in the "
             "harness, off until class raw-text-child is listed: 1 container in 40 is a <textarea>/<style> with one string child); "
@@ -76,6 +103,9 @@ CFG = {
         "forward to the typed impls (any_view.rs, any_attribute.rs), which is what the model assumes (`.any` is transparent)",
     ],
     "modelled": [
+        "expressed through the constructor they share to_html / hydrate / rebuild with (lean/Driver/C05.lean): InertElement (= the static element it was "
+        "rendered from; C05_inert_walk), keyed (= Vec of the item views), Result (= Option), u32 / Arc<str> / Cow<str> (= String), EitherOf3, "
+        "[T; N] (= tuple), OwnedView (transparent), closures (an AnyView that is always replaced on rebuild)",
         "RenderHtml::to_html_with_buf + the Position it leaves for String/&str, (), HtmlElement, tuples, Option, Either, Vec, AnyView "
         "(view/strings.rs, tuples.rs, iterators.rs, either.rs, any_view.rs, html/element/mod.rs)",
         "RenderHtml::hydrate::<true> for the same types; hydration.rs Cursor::{child, sibling, parent, next_placeholder}; "
@@ -95,10 +125,16 @@ CFG = {
         "<pre>/<textarea> leading-newline and table/select foster-parenting rules of the HTML parser (outside the parser subset)",
         "C05_hydrate_succeeds quantifies over every DOM that holds domOf v (predicate Realises); C05_load_realises proves that the loader of the "
         "harness (one node per parsed node, in document order) produces such a DOM; the driver re-evaluates both on every case (model self-check)",
-        "C05_then_like_csr_stmt (hydrated-then-rebuilt = client-built-then-rebuilt, comments aside; no exclusion since the repair of F-C05-1) is "
-        "OPEN as a theorem: it is evaluated on every generated pair by the model and by the real code, and kernel-checked on the examples",
+        "C05_then_like_csr is proved for static string attributes with distinct names (the attribute fragment for which C03 proves rebuild: "
+        "it rests on C03's rebuild_spec / build_mount_spec) and for A without child-less non-void elements; with Option<String> / bool attributes "
+        "and child-less elements the statement (C05_then_like_csr_stmt) stays OPEN and is evaluated on every generated pair by the model and by the real code",
         "the repaired hydrate writes during the walk; the model performs the walk first and the writes afterwards (settle), justified by "
         "C05_walk_commutes_with_writes; that the DOM after settle serialises to domA is evaluated by the driver on every case",
+        "not built by the harness (stated, correspondence does not cover them): Doctype (outside the HTML parser subset), Static<..> (nightly only), "
+        "ViewTemplate and templates (FROM_SERVER = false), Island / IslandChildren, Suspend with pending futures (C07), EitherKeepAlive, "
+        "AnyViewWithAttrs, and the views of the leptos / leptos_router / leptos_meta crates (View<T>, Unsuspend, ErrorBoundaryView, routes, meta tags); "
+        "a keyed list with string items is rebuilt only by changes at its end (a moved text node leaves its `<!>` separator behind, which the "
+        "unkeyed model rebuild does not reproduce comment for comment)",
         "StaticVec / Fragment is modelled only as one child of an element (children pre.., Fragment(items), post..): F-C05-3 and its repair",
     ],
     "manifest": {
@@ -112,12 +148,17 @@ CFG = {
                 "hydration shows, comments aside, exactly what a client-side build shows (same elements, attributes, text). Two defects found by this "
                 "property were repaired in /repo (F-C05-1: the adopted ' ' of an empty string is now reset to ''; F-C05-3: an empty StaticVec "
                 "hydrated as first child recorded the grandparent as its parent); their pre-repair behaviour is kept as *Old definitions with "
-                "kernel-evaluated regression witnesses. Equivalence under later rebuilds is established by differential testing only (statement "
-                "OPEN); raw-text elements keep no child state (F-C05-2, known finding). Tied to the code by a byte-for-byte differential run: real to_html (+ both stream "
+                "kernel-evaluated regression witnesses. Five defects found by this property were repaired in "
+                "/repo (F-C05-1, -3, -4, -5 and the position handling of keyed lists); C05_then_like_csr: after hydration a rebuild with any "
+                "value of the same type shows, comments aside, exactly what the client-built twin shows (all structural combinators incl. branch "
+                "switches, Vec grow/shrink and AnyView type changes; static string attributes) — proved by showing that erasing the inert "
+                "<!> separators commutes with every DOM primitive and with rebuild, that the erased hydrated world is a mounted representation "
+                "in the sense of C03, and by C03's rebuild theorem on both sides. Raw-text elements keep no child state (F-C05-2, known finding). Tied to the code by a byte-for-byte differential run: real to_html (+ both stream "
                 "forms) -> independent Rust HTML parser -> native DOM -> real hydrate::<true> (outcome / error kind, nodes created) -> real "
                 "rebuild, against a client-built twin; the Lean parser is compared with the Rust parser on every SSR string.",
         "design_ref": "DESIGN.md §6.3, §6.4, §7 C05, §8 F-C05-1",
-        "note": "model hand-written; sync form only (streamed forms reduce through C07); post-hydration rebuild equivalence is tested, not proved",
+        "note": "model hand-written; sync form only (streamed forms reduce through C07); post-hydration rebuild equivalence proved for static "
+                "string attributes (rests on C03's rebuild_spec), tested beyond",
         "technique": "Lean 4 proof (induction over view trees; tokenizer lemmas of C06; cursor/sibling invariants over the DOM model) + "
                      "kernel-evaluated refutation witness + differential correspondence on the native DOM",
     },
